@@ -54,12 +54,12 @@ type tagCond struct {
 }
 
 type traceBuilder struct {
-	c        *Ctx
-	rule     string
-	nodes    []*tNode
-	tags     []tagCond
-	evMemo   map[*ssa.Function]int // 0 unknown, 1 has events, 2 none, 3 in progress
-	problems []string
+	c          *Ctx
+	rule       string
+	nodes      []*tNode
+	tags       []tagCond
+	evMemo     map[*ssa.Function]int // 0 unknown, 1 has events, 2 none, 3 in progress
+	problems   []string
 	stateNames map[string]map[string]string // table -> const value -> name
 }
 
@@ -228,11 +228,11 @@ func (tb *traceBuilder) inlinable(ci ssa.CallInstruction) *ssa.Function {
 }
 
 type station struct {
-	in    ssa.Instruction
-	kind  string // event | call | ret
-	label string
-	write bool
-	ln    bool
+	in     ssa.Instruction
+	kind   string // event | call | ret
+	label  string
+	write  bool
+	ln     bool
 	callee *ssa.Function
 }
 
@@ -529,9 +529,9 @@ func pruneInfeasible(o *Origins, f *ssa.Function, cut *Cut) {
 
 type absStore struct {
 	spent, locked, sigs, signed bool
-	mintQ, meltQ               string
-	pay                        string // none | inflight | succeeded | failed
-	active                     int
+	mintQ, meltQ                string
+	pay                         string // none | inflight | succeeded | failed
+	active                      int
 }
 
 func (s absStore) String() string {
@@ -589,9 +589,9 @@ type traceFinding struct {
 
 type traceResult struct {
 	nodes, edges, states int
-	findings            map[string]*traceFinding
-	events              []string
-	unknownLabels       []string
+	findings             map[string]*traceFinding
+	events               []string
+	unknownLabels        []string
 }
 
 func (tb *traceBuilder) apply(op *traceOp, label string, s absStore) (absStore, bool) {
